@@ -251,6 +251,12 @@ func (v *ValDialect) Val(i int) interface{} {
 		return []byte{byte(i), 0, byte(i >> 8), 0xfe}
 	case "lval":
 		return LVal{L: []int{i, i + 1}, S: strconv.Itoa(i)}
+	case "inf":
+		// float values; some cannot be marshaled by the default (JSON) marshaler at all
+		if i%5 == 2 {
+			return math.Inf(1)
+		}
+		return float64(i) + 0.5
 	case "bigstr":
 		// values of 1.2-4.8 KB: a node of a few entries exceeds typical 4 KiB buffers
 		return strings.Repeat(string(rune('a'+i%26)), 1200+(i%7)*600) + "#" + strconv.Itoa(i)
@@ -279,6 +285,8 @@ func (v *ValDialect) Like() interface{} {
 		return &SVal{}
 	case "bigstr":
 		return ""
+	case "inf":
+		return float64(0)
 	case "nil":
 		return nil
 	}
@@ -293,13 +301,19 @@ func (v *ValDialect) Same(got interface{}, i int) bool {
 	return reflect.DeepEqual(got, v.Val(i))
 }
 
+// Unmarshalable reports whether the default marshaler rejects value index i.
+func (v *ValDialect) Unmarshalable(i int) bool { return v.Name == "inf" && i%5 == 2 }
+
 // Distinct reports whether value indexes i and j denote different values.
 func (v *ValDialect) Distinct(i, j int) bool {
 	if v.Name == "nil" {
 		return false
 	}
+	if v.Name == "inf" && i%5 == 2 && j%5 == 2 {
+		return false // +Inf is +Inf
+	}
 	return i != j
 }
 
 var allKeyDialects = []string{"int", "int64", "uint", "uint64", "string", "bytes", "userkey", "struct"}
-var allValDialects = []string{"int", "string", "struct", "bytes", "lval", "ptr", "bigstr", "nil"}
+var allValDialects = []string{"int", "string", "struct", "bytes", "lval", "ptr", "bigstr", "inf", "nil"}
